@@ -16,7 +16,7 @@ def _one(case):
     from . import emb, bounds_ir
     text = bounds_render.render(case, _DEFS)
     rec = {"id": case["id"], "fam": case["fam"], "vars": case["vars"], "e": case["e"], "ty": case["ty"],
-           "pos": case["pos"], "status": "accepted", "trees": [], "skipped": [], "errors": [], "emb": text,
+           "pos": case["pos"], "src": case.get("src", ""), "status": "accepted", "trees": [], "skipped": [], "errors": [], "emb": text,
            "nodes": 0}
     try:
         ir, _dbg, errors = emb.front_end({"m.emb": text}, "m.emb")
